@@ -15,7 +15,7 @@ impl StdioImpl for S {
   fn stderr(&mut self) -> &mut dyn Write { &mut self.e }
   fn stderr_color(&mut self) -> &mut dyn WriteColor { &mut self.e }
   fn stdin(&mut self) -> &mut dyn Read { &mut self.i }
-  fn read_line(&self, _b: &mut String) -> io::Result<usize> { Ok(0) }
+  fn read_line(&self, b: &mut String) -> io::Result<usize> { LINES.with(|l| { let mut l = l.borrow_mut(); if l.is_empty() { Ok(0) } else { let x = l.remove(0); b.push_str(&x); Ok(x.len()) } }) }
 }
 impl IoImpl<Stdio> for Cap { fn make(&self) -> Stdio { Stdio::new(Box::new(S { o: W(self.0.clone(), false), e: W(self.0.clone(), true), i: io::empty() })) } }
 
@@ -42,8 +42,14 @@ fn run(src: &str, files: &Arc<HashMap<PathBuf, String>>) -> (i32, String, String
   let io = Io::default().with_stdio(Arc::new(cap.clone())).with_fs(Arc::new(MemFs(files.clone()))).with_env(Arc::new(E));
   let r = std::panic::catch_unwind(std::panic::AssertUnwindSafe(|| {
     let mut vm = laythe_vm::vm::Vm::new(io);
-    let r = vm.run(PathBuf::from("/v/main.lay"), src);
-    r.0
+    if std::env::var("REPLMODE").is_ok() {
+      LINES.with(|l| *l.borrow_mut() = src.split('\n').map(|x| format!("{}\n", x)).collect());
+      let r = vm.repl(); std::mem::forget(vm); r.0
+    } else {
+      let r = vm.run(PathBuf::from("/v/main.lay"), src);
+      std::mem::forget(vm);
+      r.0
+    }
   }));
   let g = cap.0.lock().unwrap();
   (r.unwrap_or(-99), String::from_utf8_lossy(&g.out).into_owned(), String::from_utf8_lossy(&g.err).into_owned())
@@ -72,4 +78,5 @@ fn main() {
   }
   eprintln!("{} programs in {:?}", n, t.elapsed());
 }
+thread_local! { static LINES: std::cell::RefCell<Vec<String>> = std::cell::RefCell::new(vec![]); }
 thread_local! { static LAST_PANIC: std::cell::RefCell<String> = std::cell::RefCell::new(String::new()); }
